@@ -139,6 +139,8 @@ def check(pid, tier='quick', seed=0, shared=None, write_evidence=True, quiet=Fal
     known_hits = []
     functions = []
     trusted = set()
+    tb_max = {}
+    dep_external = set()
     dep_verified = []
     unverified = set()
     solver_us_box = [0]
@@ -162,8 +164,14 @@ def check(pid, tier='quick', seed=0, shared=None, write_evidence=True, quiet=Fal
         if stray_assumes(unit_text):
             inconclusive.append(f'{wname}: assume/admit outside the shim')
             continue
-        trusted.update(scan_trusted(unit_text))
+        tb_list = scan_trusted(unit_text)
+        trusted.update(tb_list)
+        if not meta['world'].startswith('deps_'):
+            for t_ in set(tb_list):
+                tb_max[t_] = max(tb_max.get(t_, 0), tb_list.count(t_))
         for sd in meta.get('shim_discharged', []):
+            if sd.get('assumed_in_shim'):
+                dep_external.add(sd['shim'].split('::')[-1].split(':')[-1])
             dep_verified.append(f"shim/{sd['shim'].replace(':', '.rs ', 1)} == contract verified on {sd['source']} ({sd['function']}, world {wname})")
         if any((meta.get('generated') or {}).values()):
             generated[wname] = meta['generated']
@@ -471,6 +479,16 @@ def check(pid, tier='quick', seed=0, shared=None, write_evidence=True, quiet=Fal
             reported = reported or [{'label': f'bounded:{w["family"]}'}]
             lines.append(f'VIOLATION property={pid} replay={path} obligation=bounded:{w["family"]} '
                          f'(thorough tier, bounded search on the real code found: {w["failure"][:300]})')
+    # shim functions verified on the dependency's source in this run: take them out of the trusted base when the bare name is
+    # unambiguous among the external_body items
+    discharged_names = set()
+    bare = [t.split(' ', 1)[1] for t in trusted if t.startswith('external_body ')]
+    for dv in dep_verified:
+        mm = re.match(r'shim/\S+ (\S+) == contract verified', dv)
+        if mm:
+            nm = mm.group(1).split('::')[-1]
+            if nm in dep_external and tb_max.get('external_body ' + nm) == 1:
+                discharged_names.add('external_body ' + nm)
     n_ob = len(obligations)
     n_dis = sum(1 for o in obligations if o['discharged'])
     evidence = {
@@ -478,7 +496,10 @@ def check(pid, tier='quick', seed=0, shared=None, write_evidence=True, quiet=Fal
         'coverage': {
             'obligations': n_ob, 'discharged': n_dis,
             'checker_cmd': 'verus unit.rs --output-json --time-expanded --error-format=json --multiple-errors 40 (Verus 0.2026.09.13, Z3) on text re-extracted from /repo by vf.assemble',
-            'trusted_base': sorted(trusted),
+            'trusted_base': sorted(trusted - discharged_names),
+            'trusted_base_note': ('entries of the shim whose contract text was verified in this run on the dependency\'s own source '
+                                  '(worlds deps_*) are listed under dependency_contracts_verified, not here; only names that are '
+                                  'unambiguous in the unit are moved: ' + ', '.join(sorted(discharged_names))) if discharged_names else '',
             'dependency_contracts_verified': sorted(set(dep_verified)),
             'samples': [o['id'] for o in obligations][:60],
             'functions_under_contract': functions,
